@@ -392,8 +392,10 @@ func (k *c02Case) sideConditions() string {
 		}
 		seen[c] = true
 	}
-	if n > 1 && k.isRoot(k.chain[0]) {
-		return "leaf-is-trusted-with-extra-certificates"
+	for _, c := range k.chain[:n-1] {
+		if k.isRoot(c) {
+			return "trusted-certificate-before-the-end"
+		}
 	}
 	inPool := map[int]bool{}
 	for _, r := range k.roots {
